@@ -55,7 +55,9 @@ var c14Modes = []string{"none", "d1", "d2", "d1-then-d2", "d2-then-d1", "concurr
 	// ... or with an older, refusable attestation slipped in between inside a batch (an attempt to rewind the record).
 	"d1-stale-batch-d2", "d2-stale-batch-d1",
 	// ... or with the second duty addressed by the account's public key followed by extra bytes.
-	"d1-then-d2-by-long-key", "d2-then-d1-by-long-key"}
+	"d1-then-d2-by-long-key", "d2-then-d1-by-long-key",
+	// ... or with the FIRST duty arriving inside a batch (the account has earlier history from single requests).
+	"d1-batched-then-d2", "d2-batched-then-d1", "d1-batched-then-d2-batched"}
 
 // C14 routes two conflicting duties across the instances of a distributed account in every way and
 // counts the valid partial signatures each duty collects.
@@ -286,6 +288,15 @@ func c14Route(c *rig.Cluster, ids []uint64, account string, modes []int, d1, d2 
 			case "d2-then-d1-by-long-key":
 				put(sigs2, id, c14SignByKey(inst, shares[id], d2))
 				put(sigs1, id, c14SignByKey(inst, append(append([]byte{}, shares[id]...), 1), d1))
+			case "d1-batched-then-d2":
+				put(sigs1, id, c14SignBatched(inst, account, d1, id%2 == 0))
+				put(sigs2, id, c14Sign(inst, account, d2))
+			case "d2-batched-then-d1":
+				put(sigs2, id, c14SignBatched(inst, account, d2, id%2 == 1))
+				put(sigs1, id, c14Sign(inst, account, d1))
+			case "d1-batched-then-d2-batched":
+				put(sigs1, id, c14SignBatched(inst, account, d1, true))
+				put(sigs2, id, c14SignBatched(inst, account, d2, false))
 			case "d1-stale-batch-d2":
 				put(sigs1, id, c14Sign(inst, account, d1))
 				c14SignBatched(inst, account, c14Stale(d1), id%2 == 0)
